@@ -1494,6 +1494,20 @@ struct L2Live {
     fams: FSet,
     epoch: u32,
     seq: u32,
+    /// last NOTIFICATION read from the daemon (code, subcode)
+    notif: Option<(u8, u8)>,
+    /// family carrying the barrier's sentinel prefix (None: v6 if negotiated, else v4)
+    barrier_fam: Option<usize>,
+}
+
+/// C15 e2e: per-family prefix limit, Add-Path receive and an import policy for the peer
+#[derive(Clone, Debug)]
+struct LimitCfg {
+    fam: usize,
+    max: u32,
+    addpath: bool,
+    /// import policy rejecting the prefixes with index >= FILTERED_FROM
+    policy: bool,
 }
 
 struct L2World<'a> {
@@ -1528,6 +1542,9 @@ impl L2Live {
         match m {
             bgp::ParsedMessage::Open(_) => self.opens += 1,
             bgp::ParsedMessage::Keepalive => self.keepalives += 1,
+            bgp::ParsedMessage::Notification(n) => {
+                self.notif = Some((n.notification_code(), n.notification_subcode()))
+            }
             bgp::ParsedMessage::Update(bgp::ParsedUpdate::EndOfRib(f)) => {
                 if let Some(i) = fidx(f) {
                     self.eors[i] += 1;
@@ -1585,7 +1602,9 @@ impl L2Live {
     /// answering End-of-RIB is not flushed before the next KEEPALIVE.)
     /// The sentinel (prefix index 200) is excluded from every observation.
     async fn barrier(&mut self, tables: &TableHandle, addr: IpAddr) -> Result<(), HErr> {
-        let fi = if has(self.fams, 1) { 1 } else { 0 };
+        let fi = self
+            .barrier_fam
+            .unwrap_or(if has(self.fams, 1) { 1 } else { 0 });
         let entries = vec![packet::PathNlri::new(nlri(fi, SENTINEL))];
         let reach = bgp::Message::Update(bgp::Update::Reach {
             family: FAMS[fi],
@@ -1620,6 +1639,45 @@ impl L2Live {
 }
 
 const SENTINEL: u8 = 200;
+
+/// set once a session was seen to survive a limit-exceeding UPDATE: max-prefix drops are skipped afterwards
+static MAXPREFIX_UNSIGNALLED: std::sync::atomic::AtomicBool = std::sync::atomic::AtomicBool::new(false);
+
+/// After messages that must end the session: true if the session task is still
+/// there and installs a sentinel prefix sent after them (it keeps processing
+/// UPDATEs) or has not finished within IO_WAIT, false once the session task has finished.
+async fn session_survives(l: &mut L2Live, tables: &TableHandle, addr: IpAddr) -> bool {
+    let fi = l
+        .barrier_fam
+        .unwrap_or(if has(l.fams, 1) { 1 } else { 0 });
+    let reach = bgp::Message::Update(bgp::Update::Reach {
+        family: FAMS[fi],
+        entries: vec![packet::PathNlri::new(nlri(fi, SENTINEL))],
+        nexthop: Some(nexthop(fi)),
+        attr: mk_attrs(l.epoch * 1000 + 999, AttrKind::Plain),
+    });
+    let _ = l.send(&reach).await;
+    let deadline = std::time::Instant::now() + IO_WAIT;
+    let mut i = 0u32;
+    loop {
+        if l.join.is_finished() {
+            return false;
+        }
+        if sentinel_present(tables, addr, fi) {
+            return true;
+        }
+        if std::time::Instant::now() > deadline {
+            // not torn down within the watchdog either (e.g. the sentinel's own family is the limited one)
+            return true;
+        }
+        if i < 200 {
+            tokio::task::yield_now().await;
+        } else {
+            tokio::time::sleep(std::time::Duration::from_millis(1)).await;
+        }
+        i += 1;
+    }
+}
 
 fn sentinel_present(tables: &TableHandle, addr: IpAddr, fi: usize) -> bool {
     tables
@@ -1684,6 +1742,15 @@ impl<'a> L2World<'a> {
         listener: &'a TcpListener,
         seed: u64,
     ) -> Result<L2World<'a>, HErr> {
+        Self::new_limit(cfg, listener, seed, None).await
+    }
+
+    async fn new_limit(
+        cfg: &LocalCfg,
+        listener: &'a TcpListener,
+        seed: u64,
+        limit: Option<&LimitCfg>,
+    ) -> Result<L2World<'a>, HErr> {
         let global = make_global();
         let tables: TableHandle = Arc::new(TableManager::new(cfg.shards));
         let addr = peer_v4();
@@ -1691,6 +1758,18 @@ impl<'a> L2World<'a> {
         let mut prefix_limits = FnvHashMap::default();
         if cfg.prefix_limit {
             prefix_limits.insert(Family::IPV4, PREFIX_LIMIT);
+        }
+        let mut families = local_families();
+        if let Some(lc) = limit {
+            prefix_limits.clear();
+            prefix_limits.insert(FAMS[lc.fam], lc.max);
+            if lc.addpath {
+                // RFC 7911 mode 1 = we receive multiple paths
+                families.insert(FAMS[lc.fam], 1u8);
+            }
+            if lc.policy {
+                tables.import_policy.store(Some(limit_import_policy(lc.fam)));
+            }
         }
         let params = PeerParams {
             remote_addr: addr,
@@ -1708,7 +1787,7 @@ impl<'a> L2World<'a> {
             multihop_ttl: None,
             ttl_security: None,
             password: None,
-            families: local_families(),
+            families,
             send_max: FnvHashMap::default(),
             prefix_limits,
             graceful_restart: gr,
@@ -1768,6 +1847,15 @@ impl<'a> L2World<'a> {
     }
 
     async fn connect(&mut self, spec: &CapSpec) -> Result<L2Live, HErr> {
+        self.connect_caps(spec_caps(spec), spec.mp & 0b11, true).await
+    }
+
+    async fn connect_caps(
+        &mut self,
+        my_caps: Vec<packet::Capability>,
+        fams: FSet,
+        server_rst: bool,
+    ) -> Result<L2Live, HErr> {
         let la = self
             .listener
             .local_addr()
@@ -1783,8 +1871,10 @@ impl<'a> L2World<'a> {
         // close with RST: no TIME_WAIT sockets pile up over thousands of sessions
         #[allow(deprecated)]
         let _ = client.set_linger(Some(std::time::Duration::ZERO));
-        #[allow(deprecated)]
-        let _ = server.set_linger(Some(std::time::Duration::ZERO));
+        if server_rst {
+            #[allow(deprecated)]
+            let _ = server.set_linger(Some(std::time::Duration::ZERO));
+        }
         let _ = client.set_nodelay(true);
         let sess = accept_connection(
             &self.global,
@@ -1797,7 +1887,6 @@ impl<'a> L2World<'a> {
         let local_cap = sess.local_cap.clone();
         // Global::serve: tokio::spawn(h.run(global.clone(), active_tx.clone()))
         let join = tokio::spawn(sess.run(self.global.clone(), self.active_tx.clone()));
-        let my_caps = spec_caps(spec);
         Ok(L2Live {
             client,
             codec: bgp::PeerCodec::negotiate(&my_caps, &local_cap),
@@ -1806,9 +1895,11 @@ impl<'a> L2World<'a> {
             eors: [0, 0],
             keepalives: 0,
             opens: 0,
-            fams: spec.mp & 0b11,
+            fams,
             epoch: 0,
             seq: 0,
+            notif: None,
+            barrier_fam: None,
         })
     }
 
@@ -1937,7 +2028,8 @@ impl<'a> L2World<'a> {
                     return Ok(None);
                 }
                 if *how == DropHow::MaxPrefix
-                    && !(self.cfg.prefix_limit && has(self.live.as_ref().unwrap().fams, 0))
+                    && (!(self.cfg.prefix_limit && has(self.live.as_ref().unwrap().fams, 0))
+                        || MAXPREFIX_UNSIGNALLED.load(std::sync::atomic::Ordering::Relaxed))
                 {
                     return Ok(None);
                 }
@@ -1981,7 +2073,15 @@ impl<'a> L2World<'a> {
                                 break;
                             }
                         }
-                        let _ = l.read_until(|_| false, "close").await;
+                        // The daemon must tear the session down (C15's subject).  If it keeps
+                        // processing UPDATEs instead, do not wait for a teardown that never comes.
+                        if session_survives(&mut l, &self.tables, self.addr).await {
+                            MAXPREFIX_UNSIGNALLED.store(true, std::sync::atomic::Ordering::Relaxed);
+                            self.live = Some(l);
+                            return Err(HErr::Harness(
+                                "the session survived UPDATEs exceeding its prefix limit (judged by C15 limit-e2e); max-prefix drops are skipped from here on".into(),
+                            ));
+                        }
                     }
                     DropHow::ApiShutdown | DropHow::ApiReset | DropHow::ApiSilent => {
                         let reason = match how {
@@ -3253,6 +3353,644 @@ fn run() {
         if part == "l2" || part == "all" {
             part_random(&ctl, &mut rep, 2);
         }
+    }
+    let _ = rep.finish();
+}
+
+// ====================================================================================
+// C15, end-to-end half: "a peer's distinct accepted prefixes never exceed its configured
+// maximum without the limit being signalled".  The table-level half (counter == recount,
+// PrefixLimitExceeded returned) is judged by the E1 monitor c15; what the session does
+// with that return value is only visible here: real accept_connection + PeerSession::run
+// with PeerParams.prefix_limits, the harness being the remote speaker.
+//
+// Counting follows the statement and c15.rs: *distinct prefixes*; a replacement, an extra
+// Add-Path path of a held prefix and a filtered <-> unfiltered flip do not add a prefix.
+// The daemon's per-session counter also counts prefixes whose paths the import policy
+// filtered; the statement only speaks of accepted ones, so:
+//   announced distinct prefixes <= N            -> the session must stay up      (early)
+//   accepted  distinct prefixes would be  > N   -> Cease/1 + close is required   (not-signalled)
+//   in between (filtered prefixes fill the gap) -> both outcomes accepted
+//   at every quiescent point: accepted distinct prefixes in the RIB <= N         (exceeded)
+// ====================================================================================
+
+/// prefixes with an index in this range are rejected by the import policy (LimitCfg.policy)
+const FILTERED_LO: u8 = 64;
+const FILTERED_HI: u8 = 127;
+
+fn limit_import_policy(fam: usize) -> Arc<table::PolicyAssignment> {
+    let mut pt = table::PolicyTable::new();
+    let pfx = if fam == 0 {
+        table::PrefixConfig {
+            ip_prefix: "10.64.0.0/10".into(),
+            mask_length_min: 16,
+            mask_length_max: 16,
+        }
+    } else {
+        table::PrefixConfig {
+            ip_prefix: "2001:db8:40::/42".into(),
+            mask_length_min: 48,
+            mask_length_max: 48,
+        }
+    };
+    pt.add_defined_set(table::DefinedSetConfig::Prefix {
+        name: "ps".into(),
+        prefixes: vec![pfx],
+    })
+    .unwrap();
+    pt.add_statement(
+        "rej",
+        vec![table::ConditionConfig::PrefixSet(
+            "ps".into(),
+            table::MatchOption::Any,
+        )],
+        Some(table::Disposition::Reject),
+        table::Actions::default(),
+    )
+    .unwrap();
+    pt.add_policy("p", vec!["rej".into()]).unwrap();
+    pt.build_assignment(
+        None,
+        "i",
+        table::PolicyDirection::Import,
+        table::Disposition::Accept,
+        vec!["p".into()],
+    )
+    .unwrap()
+}
+
+#[derive(Clone, Debug, PartialEq)]
+enum LOp {
+    Announce { pfx: u8, pid: u32, med: u32 },
+    Withdraw { pfx: u8, pid: u32 },
+    /// new connection after the previous session was torn down
+    Reconnect,
+}
+
+fn limit_filtered(cfg: &LimitCfg, pfx: u8) -> bool {
+    cfg.policy && (FILTERED_LO..=FILTERED_HI).contains(&pfx)
+}
+
+/// script generated by simulating the remote end's own view (what it holds announced)
+fn gen_limit_script(rng: &mut Rng, cfg: &LimitCfg) -> Vec<LOp> {
+    let n = cfg.max as usize;
+    let mut ops = Vec::new();
+    let mut med = 0u32;
+    let rounds = if rng.chance(1, 2) { 2 } else { 1 };
+    for round in 0..rounds {
+        if round > 0 {
+            ops.push(LOp::Reconnect);
+        }
+        let mut held: BTreeMap<u8, BTreeSet<u32>> = BTreeMap::new();
+        let mut next_plain: u8 = rng.below(8) as u8;
+        let mut next_filt: u8 = FILTERED_LO + rng.below(8) as u8;
+        let accepted = |h: &BTreeMap<u8, BTreeSet<u32>>| h.keys().filter(|p| !limit_filtered(cfg, **p)).count();
+        for _ in 0..rng.range(3, 22) {
+            let k = rng.below(100);
+            med += 1;
+            let any = !held.is_empty();
+            if k < 35 && held.len() < n {
+                held.entry(next_plain).or_default().insert(0);
+                ops.push(LOp::Announce { pfx: next_plain, pid: 0, med });
+                next_plain += 1;
+            } else if k < 47 && cfg.policy && (held.len() < n || rng.chance(1, 4)) && next_filt < FILTERED_HI {
+                // a prefix the import policy rejects; beyond N announced prefixes the outcome is open
+                held.entry(next_filt).or_default().insert(0);
+                ops.push(LOp::Announce { pfx: next_filt, pid: 0, med });
+                next_filt += 1;
+            } else if k < 65 && any {
+                let pfx = *rng.pick(&held.keys().copied().collect::<Vec<_>>());
+                let pid = *rng.pick(&held[&pfx].iter().copied().collect::<Vec<_>>());
+                ops.push(LOp::Announce { pfx, pid, med });
+            } else if k < 80 && any && cfg.addpath {
+                let pfx = *rng.pick(&held.keys().copied().collect::<Vec<_>>());
+                let pid = held[&pfx].iter().max().copied().unwrap_or(0) + 1;
+                if pid < 4 {
+                    held.get_mut(&pfx).unwrap().insert(pid);
+                    ops.push(LOp::Announce { pfx, pid, med });
+                }
+            } else if any {
+                let pfx = *rng.pick(&held.keys().copied().collect::<Vec<_>>());
+                let pid = *rng.pick(&held[&pfx].iter().copied().collect::<Vec<_>>());
+                let e = held.get_mut(&pfx).unwrap();
+                e.remove(&pid);
+                if e.is_empty() {
+                    held.remove(&pfx);
+                }
+                ops.push(LOp::Withdraw { pfx, pid });
+            }
+        }
+        // fill up to N accepted prefixes, then the (N+1)th
+        while accepted(&held) < n + 1 && next_plain < FILTERED_LO - 1 {
+            med += 1;
+            held.entry(next_plain).or_default().insert(0);
+            ops.push(LOp::Announce { pfx: next_plain, pid: 0, med });
+            next_plain += 1;
+        }
+        if rng.chance(1, 3) {
+            // one more, in case the session is (wrongly) still there
+            med += 1;
+            ops.push(LOp::Announce { pfx: next_plain, pid: 0, med });
+        }
+    }
+    ops
+}
+
+#[derive(Clone, Copy, PartialEq, Debug)]
+enum Probe {
+    Alive,
+    Dead,
+    Watchdog,
+}
+
+/// Did the session survive what was just sent?  Alive = a sentinel prefix of the *other*
+/// family, sent afterwards, was installed and withdrawn again (the session task handles
+/// messages in order, so everything before it has been processed).  Dead = the session
+/// task finished.  `grace`: first give the session a moment to tear down before the
+/// sentinel is sent (used when a teardown is expected or possible).
+async fn limit_probe(l: &mut L2Live, tables: &TableHandle, addr: IpAddr, grace: bool) -> Probe {
+    if grace {
+        let until = std::time::Instant::now() + std::time::Duration::from_millis(400);
+        while std::time::Instant::now() < until {
+            if l.join.is_finished() {
+                return Probe::Dead;
+            }
+            tokio::time::sleep(std::time::Duration::from_millis(1)).await;
+        }
+    }
+    let fi = l.barrier_fam.unwrap_or(1);
+    let entries = vec![packet::PathNlri::new(nlri(fi, SENTINEL))];
+    let reach = bgp::Message::Update(bgp::Update::Reach {
+        family: FAMS[fi],
+        entries: entries.clone(),
+        nexthop: Some(nexthop(fi)),
+        attr: mk_attrs(999, AttrKind::Plain),
+    });
+    let unreach = bgp::Message::Update(bgp::Update::Unreach {
+        family: FAMS[fi],
+        entries,
+    });
+    let _ = l.send(&reach).await;
+    let deadline = std::time::Instant::now() + IO_WAIT;
+    let mut want = true;
+    let mut i = 0u32;
+    loop {
+        if l.join.is_finished() {
+            return Probe::Dead;
+        }
+        if sentinel_present(tables, addr, fi) == want {
+            if !want {
+                return Probe::Alive;
+            }
+            want = false;
+            let _ = l.send(&unreach).await;
+            continue;
+        }
+        if std::time::Instant::now() > deadline {
+            return Probe::Watchdog;
+        }
+        if i < 200 {
+            tokio::task::yield_now().await;
+        } else {
+            tokio::time::sleep(std::time::Duration::from_millis(1)).await;
+        }
+        i += 1;
+    }
+}
+
+/// paths of the peer in the limited family: (prefix, path id, filtered)
+fn limit_rib(tables: &TableHandle, addr: IpAddr, fam: usize) -> Vec<(u8, u32, bool)> {
+    let mut v = Vec::new();
+    for d in tables.collect_paths(table::TableQuery::AdjIn(addr), FAMS[fam], vec![], true) {
+        let pfx = match &d.net {
+            packet::Nlri::V4(n) => n.addr.octets()[1],
+            packet::Nlri::V6(n) => n.addr.segments()[2] as u8,
+            _ => 255,
+        };
+        for p in d.paths {
+            v.push((pfx, p.remote_path_id, p.filtered));
+        }
+    }
+    v.sort();
+    v
+}
+
+struct LimitOut {
+    finding: Option<(String, String)>,
+    trace: Vec<String>,
+    stats: Stats,
+    herr: Option<HErr>,
+    judged: u64,
+    nontrivial: bool,
+}
+
+async fn limit_connect(w: &mut L2World<'_>, cfg: &LimitCfg) -> Result<L2Live, HErr> {
+    let mut caps = vec![
+        packet::Capability::MultiProtocol(Family::IPV4),
+        packet::Capability::MultiProtocol(Family::IPV6),
+        packet::Capability::FourOctetAsNumber(REMOTE_ASN),
+    ];
+    if cfg.addpath {
+        // RFC 7911 mode 2 = we send multiple paths
+        caps.push(packet::Capability::AddPath(vec![(FAMS[cfg.fam], 2)]));
+    }
+    // the daemon closes first in this workload: a normal close, so that its NOTIFICATION is not lost to a reset
+    let mut l = w.connect_caps(caps.clone(), 0b11, false).await?;
+    l.barrier_fam = Some(1 - cfg.fam);
+    l.send(&bgp::Message::Open(bgp::Open {
+        as_number: REMOTE_ASN,
+        holdtime: HoldTime::new(90).unwrap(),
+        router_id: u32::from(Ipv4Addr::new(10, 0, 0, 1)),
+        capability: caps,
+    }))
+    .await?;
+    l.send(&bgp::Message::Keepalive).await?;
+    l.read_until(|l| l.eors[0] > 0 && l.eors[1] > 0, "initial End-of-RIB markers")
+        .await?;
+    Ok(l)
+}
+
+async fn run_limit_history(
+    cfg: &LimitCfg,
+    shards: usize,
+    script: &[LOp],
+    listener: &TcpListener,
+    want_trace: bool,
+) -> LimitOut {
+    let mut out = LimitOut {
+        finding: None,
+        trace: vec![],
+        stats: Stats::default(),
+        herr: None,
+        judged: 0,
+        nontrivial: false,
+    };
+    let base = LocalCfg {
+        gr: 0,
+        nbit: false,
+        llgr: 0,
+        shards,
+        prefix_limit: false,
+    };
+    let mut w = match L2World::new_limit(&base, listener, 1, Some(cfg)).await {
+        Ok(w) => w,
+        Err(e) => {
+            out.herr = Some(e);
+            return out;
+        }
+    };
+    let n = cfg.max as usize;
+    let mut live: Option<L2Live> = match limit_connect(&mut w, cfg).await {
+        Ok(l) => Some(l),
+        Err(e) => {
+            out.herr = Some(e);
+            return out;
+        }
+    };
+    match limit_probe(live.as_mut().unwrap(), &w.tables, w.addr, false).await {
+        Probe::Alive => {}
+        p => {
+            out.herr = Some(HErr::Harness(format!("fresh session: {:?}", p)));
+            w.live = live;
+            w.cleanup().await;
+            return out;
+        }
+    }
+    // what the remote end holds announced on the live session
+    let mut held: BTreeMap<u8, BTreeSet<u32>> = BTreeMap::new();
+    let mut reached_max = false;
+    let mut freed_slot = false;
+    for (i, op) in script.iter().enumerate() {
+        if let LOp::Reconnect = op {
+            if live.is_some() {
+                continue;
+            }
+            match limit_connect(&mut w, cfg).await {
+                Ok(l) => live = Some(l),
+                Err(e) => {
+                    out.herr = Some(e);
+                    break;
+                }
+            }
+            held.clear();
+            out.stats.add("limit:reconnect");
+            let rib = limit_rib(&w.tables, w.addr, cfg.fam);
+            if !rib.is_empty() {
+                out.stats.add("unjudged:routes-left-after-limit-teardown");
+            }
+            if want_trace {
+                out.trace.push(format!("#{} Reconnect => rib={:?}", i, rib));
+            }
+            continue;
+        }
+        let Some(l) = live.as_mut() else { continue };
+        let before_announced = held.len();
+        let before_accepted = held.keys().filter(|p| !limit_filtered(cfg, **p)).count();
+        let msg = match op {
+            LOp::Announce { pfx, pid, med } => {
+                let kind = if !held.contains_key(pfx) {
+                    if limit_filtered(cfg, *pfx) {
+                        "new-filtered-prefix"
+                    } else {
+                        "new-prefix"
+                    }
+                } else if held[pfx].contains(pid) {
+                    "replacement"
+                } else {
+                    "extra-addpath-path"
+                };
+                out.stats.add(&format!("limit:op:{}", kind));
+                if kind == "new-prefix" && freed_slot && before_accepted + 1 == n {
+                    out.stats.add("limit:op:announce-into-freed-slot");
+                }
+                held.entry(*pfx).or_default().insert(*pid);
+                bgp::Message::Update(bgp::Update::Reach {
+                    family: FAMS[cfg.fam],
+                    entries: vec![packet::PathNlri {
+                        path_id: *pid,
+                        nlri: nlri(cfg.fam, *pfx),
+                    }],
+                    nexthop: Some(nexthop(cfg.fam)),
+                    attr: mk_attrs(*med, AttrKind::Plain),
+                })
+            }
+            LOp::Withdraw { pfx, pid } => {
+                if !held.get(pfx).is_some_and(|s| s.contains(pid)) {
+                    continue;
+                }
+                let e = held.get_mut(pfx).unwrap();
+                e.remove(pid);
+                if e.is_empty() {
+                    held.remove(pfx);
+                    out.stats.add("limit:op:withdraw-last-path");
+                    if before_accepted == n {
+                        freed_slot = true;
+                    }
+                } else {
+                    out.stats.add("limit:op:withdraw-one-of-several");
+                }
+                bgp::Message::Update(bgp::Update::Unreach {
+                    family: FAMS[cfg.fam],
+                    entries: vec![packet::PathNlri {
+                        path_id: *pid,
+                        nlri: nlri(cfg.fam, *pfx),
+                    }],
+                })
+            }
+            LOp::Reconnect => unreachable!(),
+        };
+        let announced = held.len();
+        let accepted = held.keys().filter(|p| !limit_filtered(cfg, **p)).count();
+        if accepted == n {
+            reached_max = true;
+        }
+        let must_survive = announced <= n;
+        let must_die = accepted > n;
+        if l.send(&msg).await.is_err() {
+            out.herr = Some(HErr::Io("write to a session that should be up failed".into()));
+            break;
+        }
+        let probe = limit_probe(l, &w.tables, w.addr, !must_survive).await;
+        out.judged += 1;
+        let rib = limit_rib(&w.tables, w.addr, cfg.fam);
+        let rib_accepted: BTreeSet<u8> = rib.iter().filter(|(_, _, f)| !*f).map(|(p, _, _)| *p).collect();
+        if want_trace {
+            out.trace.push(format!(
+                "#{} {:?} (announced {} accepted {} of max {}) => {:?}, rib={:?}",
+                i, op, announced, accepted, n, probe, rib
+            ));
+        }
+        match probe {
+            Probe::Watchdog => {
+                out.herr = Some(HErr::Watchdog(
+                    "neither a teardown nor a processed sentinel after an UPDATE".into(),
+                ));
+                break;
+            }
+            Probe::Dead => {
+                let mut l = live.take().unwrap();
+                // collect what the daemon sent before it closed
+                let _ = l.read_until(|_| false, "close").await;
+                let notif = l.notif;
+                let L2Live { client, join, .. } = l;
+                let _ = join_session(join).await;
+                drop(client);
+                if want_trace {
+                    out.trace.push(format!("   session ended, NOTIFICATION read: {:?}", notif));
+                }
+                if must_survive {
+                    out.finding = Some((
+                        "early".into(),
+                        format!(
+                            "the session was torn down (NOTIFICATION {:?}) although the peer holds only {} distinct prefixes announced, max {}",
+                            notif, announced, n
+                        ),
+                    ));
+                    break;
+                }
+                if must_die {
+                    out.stats.add("limit:teardown-at-n-plus-1");
+                    if reached_max {
+                        out.nontrivial = true;
+                    }
+                    if notif == Some((6, 1)) {
+                        out.stats.add("limit:cease-1-read");
+                    } else {
+                        out.finding = Some((
+                            "closed-without-cease-1".into(),
+                            format!("the session ended at the (N+1)th accepted prefix but the remote end read NOTIFICATION {:?}, not Cease/1", notif),
+                        ));
+                        break;
+                    }
+                } else {
+                    out.stats.add("unjudged:teardown-while-filtered-prefixes-fill-the-limit");
+                }
+                if !limit_rib(&w.tables, w.addr, cfg.fam).is_empty() {
+                    out.stats.add("unjudged:routes-left-after-limit-teardown");
+                }
+            }
+            Probe::Alive => {
+                if rib_accepted.len() > n {
+                    out.finding = Some((
+                        "exceeded".into(),
+                        format!(
+                            "the RIB holds {} distinct accepted prefixes of the peer, max {}, and the session is up",
+                            rib_accepted.len(),
+                            n
+                        ),
+                    ));
+                    break;
+                }
+                if must_die {
+                    // demonstrably alive: the sentinel sent after the (N+1)th prefix was processed;
+                    // does it take a further prefix as well?
+                    let further = bgp::Message::Update(bgp::Update::Reach {
+                        family: FAMS[cfg.fam],
+                        entries: vec![packet::PathNlri::new(nlri(cfg.fam, 59))],
+                        nexthop: Some(nexthop(cfg.fam)),
+                        attr: mk_attrs(9999, AttrKind::Plain),
+                    });
+                    let _ = l.send(&further).await;
+                    let p2 = limit_probe(l, &w.tables, w.addr, true).await;
+                    let kept_up = l.keepalives;
+                    out.finding = Some((
+                        "not-signalled".into(),
+                        format!(
+                            "the (N+1)th distinct accepted prefix (N = {}) was processed and the session stayed up without a NOTIFICATION (a later sentinel UPDATE was processed; a further prefix afterwards: {:?}; {} KEEPALIVEs read; RIB holds {} accepted prefixes)",
+                            n,
+                            p2,
+                            kept_up,
+                            rib_accepted.len()
+                        ),
+                    ));
+                    break;
+                }
+                if must_survive {
+                    out.stats.add("limit:survive-judged");
+                    if accepted == n {
+                        out.stats.add("limit:survive-judged-at-max");
+                    }
+                    // the model of what is installed must agree, else later verdicts mean nothing
+                    let want: Vec<(u8, u32, bool)> = held
+                        .iter()
+                        .flat_map(|(p, s)| s.iter().map(|i| (*p, *i, limit_filtered(cfg, *p))))
+                        .collect();
+                    if rib != want {
+                        out.stats.add("unjudged:rib-differs-from-what-was-announced");
+                        out.herr = Some(HErr::Harness(format!(
+                            "RIB {:?} differs from what the remote end announced {:?}",
+                            rib, want
+                        )));
+                        break;
+                    }
+                } else {
+                    out.stats.add("unjudged:alive-while-filtered-prefixes-fill-the-limit");
+                }
+            }
+        }
+        let _ = before_announced;
+    }
+    w.live = live;
+    w.cleanup().await;
+    out
+}
+
+#[test]
+fn c15_limit_signalled() {
+    let params = Params::from_args_env();
+    let mut rep = Report::new("C15", &params);
+    let rt = tokio::runtime::Builder::new_current_thread()
+        .enable_all()
+        .build()
+        .expect("runtime");
+    let listener = match rt.block_on(crate::verif_hooks::bind_retry("127.0.0.1:0".parse().unwrap())) {
+        Ok(l) => l,
+        Err(e) => {
+            rep.inconclusive(&format!("cannot bind a loopback listener: {}", e));
+            let _ = rep.finish();
+            return;
+        }
+    };
+    let count = params.get_u64("count", params.n(400, 4000));
+    let only = params.get("only").and_then(|s| s.parse::<u64>().ok());
+    let mut rng = Rng::new(params.seed ^ 0xC15E);
+    for idx in 0..count {
+        if !rep.in_budget() {
+            rep.count("limit:budget-cut");
+            break;
+        }
+        let cfg = LimitCfg {
+            fam: rng.usize(2),
+            max: *rng.pick(&[1u32, 2, 3, 5, 10]),
+            addpath: rng.chance(1, 2),
+            policy: rng.chance(1, 3),
+        };
+        let shards = *rng.pick(&[1usize, 2, 4]);
+        let script = gen_limit_script(&mut rng, &cfg);
+        if only.is_some_and(|o| o != idx) {
+            continue;
+        }
+        let exec = |script: &[LOp], trace: bool| guard(|| rt.block_on(run_limit_history(&cfg, shards, script, &listener, trace)));
+        let out = match exec(&script, false) {
+            Ok(o) => o,
+            Err(p) => {
+                rep.violation(
+                    &format!("C15/panic/{}:{}", p.location, panic_class(&p.message)),
+                    &format!("panic in the daemon while a session with a prefix limit was driven: {}", p.message),
+                    Json::obj(vec![("config", Json::s(format!("{:?}", cfg))), ("script", Json::strs(script.iter().map(|o| format!("{:?}", o))))]),
+                );
+                continue;
+            }
+        };
+        rep.count("limit:histories");
+        rep.count(&format!("limit:max={}", cfg.max));
+        if cfg.addpath {
+            rep.count("limit:with-addpath");
+        }
+        if cfg.policy {
+            rep.count("limit:with-import-policy");
+        }
+        rep.evals(out.judged);
+        for (k, v) in &out.stats.c {
+            rep.count_n(k, *v);
+        }
+        if let Some(e) = &out.herr {
+            rep.count("limit:harness-error");
+            rep.inconclusive(&format!("limit-e2e harness error: {:?} (config {:?}, history {})", e, cfg, idx));
+            continue;
+        }
+        if out.nontrivial {
+            rep.nontrivial(fnv64(format!("{:?}{:?}", cfg, script).as_bytes()));
+        }
+        let Some((fact, detail)) = out.finding else {
+            if rep.want_sample() && out.nontrivial {
+                if let Ok(t) = exec(&script, true) {
+                    rep.sample(Json::obj(vec![("config", Json::s(format!("{:?}", cfg))), ("steps", Json::strs(t.trace))]));
+                }
+            }
+            continue;
+        };
+        let sig = format!("C15/limit-e2e/{}", fact);
+        if rep.has_violation(&sig) {
+            rep.violation(&sig, "", Json::Null);
+            continue;
+        }
+        // shrink: drop ops while the same fact is reported
+        let mut cur = script.clone();
+        let mut budget = 40;
+        loop {
+            let before = cur.len();
+            let mut i = 0;
+            while i < cur.len() && budget > 0 {
+                let mut cand = cur.clone();
+                cand.remove(i);
+                budget -= 1;
+                let keep = matches!(exec(&cand, false), Ok(o) if o.herr.is_none() && o.finding.as_ref().is_some_and(|f| f.0 == fact));
+                if keep {
+                    cur = cand;
+                } else {
+                    i += 1;
+                }
+            }
+            if cur.len() == before || budget <= 0 {
+                break;
+            }
+        }
+        let (trace, detail) = match exec(&cur, true) {
+            Ok(o) => (o.trace, o.finding.map(|f| f.1).unwrap_or(detail)),
+            Err(_) => (vec![], detail),
+        };
+        rep.violation(
+            &sig,
+            &detail,
+            Json::obj(vec![
+                ("config", Json::s(format!("{:?} shards={}", cfg, shards))),
+                ("minimal_script", Json::strs(cur.iter().map(|o| format!("{:?}", o)))),
+                ("steps_observed", Json::strs(trace)),
+                ("original_len", Json::Int(script.len() as i128)),
+                ("replay", Json::s(format!("VERIF_SEED={} VERIF_ONLY={} <e2 test binary> event::verif::c10::c15_limit_signalled --exact --nocapture", params.seed, idx))),
+            ]),
+        );
     }
     let _ = rep.finish();
 }
